@@ -229,7 +229,7 @@ def gen_geom(rng, tier, regime, min_n=1, ndim=None, emax=6, force3=False, far=Fa
         scale_exp = rng.randint(-12, emax)
         cell = [10.0 ** scale_exp * rng.uniform(0.5, 5.0) for _ in range(ndim)]
         off = rng.choice([0, 1, 30, 1000] + ([10 ** 5, 10 ** 7, 10 ** 7] if far else []))   # far: offsets of 1e5 / 1e7 cells
-        if not long and rng.random() < 0.2:
+        if not long and not force3 and min_n <= 1 and rng.random() < 0.2:
             # a film on a substrate far away: ONE cell along an axis, 1e5 .. 1e7 cells from the origin (the mesh is rebuilt
             # from the cell size when pmin / pmax are missing: cell against edge at the magnitude of the coordinates)
             n[rng.randrange(ndim)] = 1
